@@ -955,7 +955,11 @@ static cat_status search_command(struct cat_object *self)
                 if (self->cmd == NULL) {
                         self->state = (self->current_char == '\n') ? CAT_STATE_COMMAND_NOT_FOUND : CAT_STATE_ERROR;
                 } else {
-                        self->state = (self->partial_cntr == 1) ? CAT_STATE_COMMAND_FOUND : CAT_STATE_COMMAND_NOT_FOUND;
+                        if (self->partial_cntr == 1) {
+                                self->state = CAT_STATE_COMMAND_FOUND;
+                        } else {
+                                self->state = (self->current_char == '\n') ? CAT_STATE_COMMAND_NOT_FOUND : CAT_STATE_ERROR;
+                        }
                 }
         }
 
